@@ -17,7 +17,20 @@ theorem bad_prefix_stops_early (max : Nat) (ctx : Ctx) (s : Bytes)
       lenTooLow l = true ∨ lenTooHigh l max = true) :
     (∃ e, (nextFrame max ctx s).res = .fail e) ∧
     s.length - (nextFrame max ctx s).rest.length ≤ 9 := by
-  sorry
+  obtain ⟨h9, _⟩ := decIntBits_consumes_le 32 s
+  unfold nextFrame
+  revert hbad h9
+  generalize runStream (decIntBits 32) s = y
+  obtain ⟨v, rest⟩ := y
+  intro hbad h9
+  simp only at h9
+  cases v with
+  | error e => cases e <;> exact ⟨⟨_, rfl⟩, h9⟩
+  | ok l =>
+    simp only []
+    rcases hbad l rest rfl with h | h
+    · simp only [h, if_true]; exact ⟨⟨_, rfl⟩, h9⟩
+    · simp only [h, if_true]; split <;> exact ⟨⟨_, rfl⟩, h9⟩
 
 /-- `lenTooLow` / `lenTooHigh` are the comparisons of the property statement
     (with the regenerated operators). -/
@@ -29,7 +42,56 @@ theorem len_checks (l : Int) (max : Nat) :
     maximum frame length is consumed from the stream. -/
 theorem budget (max : Nat) (ctx : Ctx) (s : Bytes) :
     s.length - (nextFrame max ctx s).rest.length ≤ 9 + max := by
-  sorry
+  obtain ⟨h9, h9'⟩ := decIntBits_consumes_le 32 s
+  unfold nextFrame
+  revert h9 h9'
+  generalize runStream (decIntBits 32) s = y
+  obtain ⟨v, rest⟩ := y
+  intro h9 h9'
+  simp only at h9 h9'
+  cases v with
+  | error e => cases e <;> simp only [] <;> omega
+  | ok l =>
+    simp only []
+    split
+    · simp only []; omega
+    split
+    · simp only []; omega
+    rename_i hlo hhi
+    have hL : l.toNat ≤ max := by
+      simp [lenTooHigh, Gen.pktLenHigh, Cmp.eval] at hhi
+      omega
+    obtain ⟨a1, a2⟩ := runFrame_budget Prog.byte l.toNat rest
+    revert a1 a2
+    generalize runFrame Prog.byte l.toNat rest = x
+    obtain ⟨⟨v, r⟩, rem1⟩ := x
+    intro a1 a2
+    simp only at a1 a2
+    cases v with
+    | error e =>
+      simp only []
+      have := finishFrame_le (.fail e) rem1 r
+      omega
+    | ok nb =>
+      simp only []
+      split
+      · have := finishFrame_le (.fail .pkt) rem1 r
+        omega
+      obtain ⟨b1, b2⟩ := runFrame_budget (decodeRPC ctx l.toNat (nb.toNat - 0x90)) rem1 r
+      revert b1 b2
+      generalize runFrame (decodeRPC ctx l.toNat (nb.toNat - 0x90)) rem1 r = y
+      obtain ⟨⟨v', r'⟩, rem2⟩ := y
+      intro b1 b2
+      simp only at b1 b2
+      cases v' with
+      | error e =>
+        simp only []
+        have := finishFrame_le (.fail (wrapBodyErr e)) rem2 r'
+        omega
+      | ok fr =>
+        simp only []
+        have := finishFrame_le fr rem2 r'
+        omega
 
 /-- A stream that ends exactly on a frame boundary is reported as io.EOF. -/
 theorem empty_is_eof (max : Nat) (ctx : Ctx) :
@@ -49,7 +111,43 @@ theorem truncation_never_clean_partial (max : Nat) (ctx : Ctx) (s rest : Bytes) 
     (hlo : lenTooLow l = false) (hhi : lenTooHigh l max = false)
     (hshort : rest.length < l.toNat) :
     (∀ m, (nextFrame max ctx s).res ≠ .ok m) ∧ (nextFrame max ctx s).res ≠ .fail .eof := by
-  sorry
+  unfold nextFrame
+  rw [hp]
+  simp only [hlo, hhi, Bool.false_eq_true, if_false]
+  have hL : l.toNat ≠ 0 := by omega
+  cases rest with
+  | nil =>
+    rw [Prog.byte, runFrame_readn1_nil _ _ hL]
+    simp only []
+    rw [finishFrame_fail_res]
+    simp
+  | cons nb r =>
+    rw [Prog.byte, runFrame_readn1_cons _ _ hL, runFrame]
+    simp only []
+    split
+    · rw [finishFrame_fail_res]; simp
+    obtain ⟨b1, b2⟩ := runFrame_budget (decodeRPC ctx l.toNat (nb.toNat - 0x90)) (l.toNat - 1) r
+    have hall := Prog.All_runFrame _ _ (decodeRPC_all ctx l.toNat (nb.toNat - 0x90)) (l.toNat - 1) r
+    revert b1 b2 hall
+    generalize runFrame (decodeRPC ctx l.toNat (nb.toNat - 0x90)) (l.toNat - 1) r = y
+    obtain ⟨⟨v', r'⟩, rem2⟩ := y
+    intro b1 b2 hall
+    simp only at b1 b2 hall
+    cases v' with
+    | error e =>
+      simp only []
+      rw [finishFrame_fail_res]
+      cases e <;> simp [wrapBodyErr]
+    | ok fr =>
+      simp only []
+      have hshort' : ¬ rem2 ≤ r'.length := by
+        simp only [List.length_cons] at hshort
+        omega
+      simp only [finishFrame, if_neg hshort']
+      cases fr with
+      | ok m => simp
+      | notFound e k sq n => simp
+      | fail e => exact absurd rfl (hall (.fail e) rfl e)
 
 /-- The receive loop goes on exactly after a message and after the three
     not-found errors; every other result stops it (and closes the
